@@ -771,6 +771,9 @@ func (ctx Ctx) callExpr(s *ast.CallExpr) coq.Expr {
 			if e.Kind == token.STRING {
 				v := ctx.info.Types[e].Value
 				msg = constant.StringVal(v)
+				if strings.ContainsAny(msg, "\"\n") {
+					ctx.unsupported(e, "panic message with quotes or newlines")
+				}
 			}
 		}
 		return coq.NewCallExpr(coq.GallinaIdent("Panic"), coq.GallinaString(msg))
@@ -910,6 +913,11 @@ func (ctx Ctx) basicLiteral(e *ast.BasicLit) coq.Expr {
 		s := constant.StringVal(v)
 		if strings.ContainsRune(s, '"') {
 			ctx.unsupported(e, "string literals with quotes")
+		}
+		if strings.ContainsRune(s, '\n') {
+			// the printer re-indents every line of a multi-line expression,
+			// which would change the value of the literal
+			ctx.unsupported(e, "string literals with newlines")
 		}
 		return coq.StringLiteral{Value: s}
 	}
